@@ -229,6 +229,14 @@ def run(tier, seed, model_ok):
         (['.macro emit', '  .dw 1', '.endm', '  emit 5', '.macro emit', '  .dw 2, @0', '.endm', '  emit 9'], ['', '', '', '  .dw 2, 5', '', '', '', '  .dw 2, 9']),
         (['.macro Emit', '  .dw 1', '.endm', '.macro EMIT', '  .dw 3', '.endm', '.macro w', '  emit', '.endm', '  w'], ['', '', '', '', '', '', '', '', '', '  .dw 3']),
     ]
+    fixed += [
+        # a body that ENDS in another segment: the caller goes on where the body left off
+        (['.macro toee', '  nop', '.eseg', '.endm', '  toee', '  .db 1, 2, 3, 4', '.cseg', '  ret'], ['', '', '', '', '  nop\n.eseg', '  .db 1, 2, 3, 4', '.cseg', '  ret']),
+        (['.macro tod', '.dseg', '.endm', '  nop', '  tod', 'buf: .byte 3', '.cseg', '  ldi r16, low(buf)'], ['', '', '', '  nop', '.dseg', 'buf: .byte 3', '.cseg', '  ldi r16, low(buf)']),
+        (['.macro sel', '.if @0 == 1', '.eseg', '.elif @0 == 2', '.dseg', '.else', '.cseg', '.endif', '.endm', '  nop', '  sel 1', '  .db 7, 8', '  sel 2', 'b2: .byte 2', '  sel 0', '  ldi r17, low(b2)', '  sel 1', '  .db 9'],
+         ['', '', '', '', '', '', '', '', '', '  nop', '.eseg', '  .db 7, 8', '.dseg', 'b2: .byte 2', '.cseg', '  ldi r17, low(b2)', '.eseg', '  .db 9']),
+        (['.macro ee', '.eseg', '.endm', '.macro outer', '  nop', '  ee', '.endm', '  outer', '  .dw 0x1234', '.cseg', '  ret'], ['', '', '', '', '', '', '', '  nop\n.eseg', '  .dw 0x1234', '.cseg', '  ret']),
+    ]
     must_fail = [['  nosuchmacro r1, 2'], ['.macro m', '  ldi r16, @1', '.endm', '  m 5'], ['.macro m', '  mov @0, r1', '.endm', '  m']]
     trip = []
     allp = progs + fixed
